@@ -207,6 +207,26 @@ def s_two(x: Any, *, r1: B = resource(), r2: C = resource("a"), k: Any = None) -
 _reg("s_two", s_two, False, [("r1", "B", "default", False), ("r2", "C", "a", False)], "two")
 
 
+# -- the same (type, name) asked for twice: optional first, then required (W15_C19_1: the
+# two markers differ in nothing but their optional flag)
+@inject
+async def a_opt_req(x: Any, *, r1: Optional[C] = resource("b"), r2: C = resource("b"), k: Any = None) -> Any:
+    BODY_RAN.add(CALL.get())
+    return {"x": x, "k": k, "r": [r1, r2]}
+
+
+_reg("a_opt_req", a_opt_req, True, [("r1", "C", "b", True), ("r2", "C", "b", False)], "two")
+
+
+@inject
+def s_opt_req(x: Any, *, r1: "C | None" = resource("b"), r2: C = resource("b"), k: Any = None) -> Any:
+    BODY_RAN.add(CALL.get())
+    return {"x": x, "k": k, "r": [r1, r2]}
+
+
+_reg("s_opt_req", s_opt_req, False, [("r1", "C", "b", True), ("r2", "C", "b", False)], "two")
+
+
 # -- three differently named resources of one type
 @inject
 async def a_three_names(*, r1: D = resource(), r2: D = resource("a"), r3: Optional[D] = resource("b")) -> Any:
